@@ -23,7 +23,7 @@ def explore(ck):
     r = ck.rng; quick = ck.tier == 'quick'
     ck.rule = ('(a) in-process script-eval hook with catch_unwind, debug AND release profile, on a hostile stream (truncated pushes of every width incl. cuts inside the length field, PUSHDATA4 lengths up to '
                '2^32-1, all leading opcodes, 255..3000 pushes, invalid UTF-8 after OP_RETURN, witness look-alikes with illegal lengths, scripts > 10000 bytes, random bytes) on all 8 coins: no PANIC answer, '
-               'verdict = model; (b) black-box: 8 coins x 5 callbacks on chains carrying these byte strings as scriptPubKey, scriptSig and witness items of an otherwise valid chain: exit 0, output = model, and '
+               'verdict = model; (b) black-box: 8 coins x 5 callbacks x verbosity (default, -v, -vv) on chains carrying these byte strings as scriptPubKey, scriptSig and witness items of an otherwise valid chain: exit 0, output = model, and '
                'all rows not derived from the field equal the clean run (frame). Non-trivial: the byte string is not classified NotRecognised by the reference or is a one-step mutation of a template; '
                'distinct by (coin, script bytes).')
     S = hostile(r, not quick)
@@ -41,7 +41,7 @@ def explore(ck):
                 hs.append(gen.rb(r, [65535, 65534, 65536, 253][i % 4]))       # a length on a CompactSize width boundary (the txid commits to the length bytes as stored)
             if field == 'scriptPubKey':
                 # witness-program look-alikes the bitcoin evaluator may log a warning about (v0 with an illegal length), and other shapes that only produce log output
-                hs += [b'\x00\x0a' + b'\x42' * 10, b'\x00\x02\x01\x02', b'\x00\x28' + gen.rb(r, 40), b'\x60\x02\xab\xcd']
+                hs += [b'', b'\x51', b'\x6a', b'\x6a\x02hi', b'\x00\x0a' + b'\x42' * 10, b'\x00\x02\x01\x02', b'\x00\x28' + gen.rb(r, 40), b'\x60\x02\xab\xcd']
                 # long OP_RETURN texts: multi-byte characters straddling every byte offset 70..100 and beyond, invalid bytes at those offsets (lossy path)
                 for off in r.sample(range(70, 101), 4) + [160, 255, 256]:
                     hs.append(b'\x6a' + push(b'A' * off + 'é€😀'.encode() * 10 + b'B' * r.randrange(0, 60)))
@@ -63,7 +63,8 @@ def explore(ck):
                                 txs.append(Tx(ins_, [(8, P2PKH(b'\x07' * 20))], witness=st))
                     nb = Block(prev, txs, time=b.time, version=b.version if COINS[coin]['aux'] is None else 1); blocks.append(nb); prev = nb.hash
                 return blocks
-            c = Case('h%d_%s' % (i, field), coin).simple_layout(build(hs)); c.meta.update(field=field, cbs=['csv', 'unspent', 'balances', 'opreturn', 'stats'] if not quick or field == 'scriptPubKey' else ['csv', 'stats'])
+            c = Case('h%d_%s' % (i, field), coin).simple_layout(build(hs)); c.verbosity = (i + len(cases)) % 3      # default, -v, -vv: log statements must not make content-dependent failures either
+            c.meta.update(field=field, cbs=['csv', 'unspent', 'balances', 'opreturn', 'stats'] if not quick or field == 'scriptPubKey' else ['csv', 'stats'])
             cases.append(c)
             if field == 'witness':
                 t = Case('h%d_%s_clean' % (i, field), coin).simple_layout(build([b'\x01'] * 6)); t.meta.update(field=field, cbs=['csv'], twin=c.id); cases.append(t)
